@@ -1,12 +1,27 @@
 (* Props_C12.v — no schedule can hang the registry: the lock discipline, checked on the synchronisation statements
    regenerated from the current source (Gen_Sync.v), and its consequence. *)
-From Olareg Require Import Base Sync Gen_Sync Reg Conc.
+From Olareg Require Import Base Sync Gen_Sync Gen_Locks LockOrder Reg Conc.
 Local Open Scope list_scope.
 
 (* R1-R3 hold for every function of olareg.go, referrer.go, internal/store and internal/cache: no blocking wait under a
    store-wide or server-wide mutex (outside the two documented sites), mutexes acquired in rank order, no unknown mutex *)
 Theorem C12_lock_discipline : sync_violations gen_sync = [].
 Proof. vm_compute. reflexivity. Qed.
+
+(* the order also holds across calls: closing the acquisitions over the call graph of the current source (callees resolved by
+   the Go type checker, interface calls to every implementing method, `locked` parameters followed, the cache instances told
+   apart), every mutex is acquired - directly or through any chain of calls - only while mutexes of strictly lower rank are
+   held, with the one exception listed in LockOrder.known_sites (finding C12-F45) *)
+Theorem C12_lock_order_across_calls : order_violations gen_locks gen_impls known_sites = [].
+Proof. vm_compute. reflexivity. Qed.
+
+(* non-vacuity: the table is not empty, the exception is needed (without it the check reports exactly that site), and the
+   closure sees through calls (closing the directory store reaches the mutexes of the repository cache and of the upload caches) *)
+Example C12_lock_order_not_vacuous :
+  (30 <=? List.length gen_locks)%nat = true
+  /\ map fst (order_violations gen_locks gen_impls []) = ["store.dir.RepoGet"]
+  /\ existsb (String.eqb "Cache.mu@dirRepo.uploads") (acq gen_locks gen_impls 200 "store.dir.Close" false) = true.
+Proof. vm_compute. repeat split; reflexivity. Qed.
 
 (* threads that acquire mutexes in rank order cannot form a wait-for cycle *)
 Theorem C12_no_lock_order_deadlock : forall first rest,
